@@ -568,6 +568,8 @@ def run(tier, only=None):
         c10_store_tables.check_carving(rep, config, rule="G4")
     g5(rep)
     g10(rep)
+    from . import c20_containers
+    c20_containers.v11(rep, rule="G11")      # the store's index of free pieces is this B-tree
     for config in ("compiler", "runtime"):
         g6(rep, config)
         g7(rep, config)
